@@ -939,6 +939,14 @@ func splitInlineBox(context *layoutContext, box_ Box, positionX, maxX, bottomSpa
 					linePlaceholders, waitingFloats, lineChildren, &children, waitingChildren)
 				if previousResumeAt != nil {
 					resumeAt = previousResumeAt
+					// the rejected child takes its preserved line break with it, and the box
+					// ends where its last kept child ends
+					preservedLineBreak = false
+					positionX = initialPositionX
+					if l := len(children); l != 0 {
+						last := children[l-1].box.Box()
+						positionX = last.PositionX + last.MarginWidth()
+					}
 					break
 				}
 			}
